@@ -16,10 +16,12 @@ def agedX (rm : List FUid) (x : InstX) : InstX :=
   { x with childFlowUids := x.childFlowUids.filter (keepB rm),
            scopes := x.scopes.map fun e => (e.1, (e.2.1.filter (keepB rm), e.2.2)) }
 
-/-- records of a kept instance in the live and in the aged run: equal up to the dropped uids and the time stamp, and the
-    aged record is at least as old -/
+/-- records of a kept instance in the live and in the aged run: equal up to occurrences of discarded uids in the child / scope
+    lists and the time stamp, and the aged record is at least as old.  (Both sides are filtered: `_clean_up_state` drops a
+    discarded uid from the child list of its `parent_uid` only, while a flow activated by a second parent is ALSO listed by
+    that parent — the aged record of the second parent keeps the dangling uid.  Found by the run-time check of this relation.) -/
 structure XRel (rm : List FUid) (clk clk' : Nat) (x x' : InstX) : Prop where
-  eq : { x' with statusUpdated := x.statusUpdated } = agedX rm x
+  eq : agedX rm { x' with statusUpdated := x.statusUpdated } = agedX rm x
   stamp : clk - x.statusUpdated ≤ clk' - x'.statusUpdated
 
 def ORel {α β} (ρ : α → β → Prop) : Option α → Option β → Prop
